@@ -228,6 +228,51 @@ def run_case(case):
                      conclusion=T(B, A))
             elif k == 'OR':
                 inst('OR', True, v, premises=[T(Cs[t[3]], As[t[1]]), T(Cs[t[3]], As[t[2]])], conclusion=T(B, A))
+    # ---- the same base OBJECT edited in place: direct inference (and And over its rules) must hold for the
+    # edited content, whatever was computed for the object before
+    if small and len(conds) >= 2 and rng.random() < 0.3:
+        from .. import refmodel as rm
+        for _ in range(20):
+            j = rng.randrange(len(conds))
+            Bx, Ax = rng.choice(conds)
+            newc = (Not(Bx), And(Ax, fml.rand_formula(rng, atoms, 1, 0.0))) if rng.random() < 0.6 else \
+                gen.rand_base(rng, nat=len(sig), ncond=1, depth=rng.choice([0, 1]), p_const=0.0)[1][0]
+            if rng.random() >= 0.6:
+                m_ = dict(zip(gen.NAMES, sig))
+                newc = (fml.rename(newc[0], m_), fml.rename(newc[1], m_))
+            conds2 = list(conds)
+            conds2[j] = newc
+            st2 = rm.Setup(rm.Base(sig, conds2), weakly)
+            if st2.ok and newc != conds[j] and (not weakly or j not in st2.inf):
+                break
+        else:
+            conds2 = None
+        if conds2 is not None:
+            bump('in_place_edit_histories')
+            bdesc2 = dict(bdesc, edited_position=j, new_rule=fml.cond_text(*newc))
+            for (system, p) in cfgs:
+                cname = impl.cfg_name(system, p)
+                try:
+                    bb = impl.mk_bb(sig, conds)
+                    kl = list(bb.conditionals.keys())
+                    impl.ask(bb, system, p, impl.mk_queries(conds[:2]), weakly=weakly)
+                    nc = impl.mk_cond(*newc)
+                    nc.index = kl[j]
+                    bb.conditionals[kl[j]] = nc
+                    fin = [c for i_, c in enumerate(conds2) if i_ not in st2.inf]
+                    r = impl.results(impl.ask(bb, system, p, impl.mk_queries(fin), weakly=weakly))
+                except Exception as e:
+                    if type(e).__name__ == 'SoftTimeout':
+                        raise
+                    res['violations'].append({'sig': 'postulate:DI:%s:%s:exception-after-in-place-edit:%s' % (cname, mode, type(e).__name__),
+                                              'detail': dict(base=bdesc2, error=str(e)[:200])})
+                    continue
+                for (B, A), v in zip(fin, r):
+                    res['evals'] += 1
+                    bump('instances_DI_after_in_place_edit', cname)
+                    if not v:
+                        res['violations'].append({'sig': 'postulate:DI:%s:%s:violated-after-in-place-edit' % (cname, mode),
+                                                  'detail': dict(base=bdesc2, query=fml.cond_text(B, A))})
     res['sample'] = {'base': bdesc, 'mode': mode, 'antecedents': [fml.to_text(a) for a in As],
                      'consequents': [fml.to_text(c) for c in Cs]}
     return res
